@@ -133,6 +133,7 @@ func c37ExecMain() {
 	for {
 		line, err := rd.ReadBytes('\n')
 		if err != nil {
+			c37CapCleanup() // removes the capacity fixture's ledger directory
 			os.Exit(0)
 		}
 		var c c37Case
@@ -140,8 +141,12 @@ func c37ExecMain() {
 			fmt.Fprintln(os.Stderr, "harness: executor cannot decode case:", err)
 			os.Exit(3)
 		}
-		h := c37RunConc(c)
-		b, _ := json.Marshal(h)
+		var b []byte
+		if c.Mode == "cap" {
+			b, _ = json.Marshal(capRun(c))
+		} else {
+			b, _ = json.Marshal(c37RunConc(c))
+		}
 		out.Write(append(b, '\n'))
 	}
 }
@@ -149,13 +154,14 @@ func c37ExecMain() {
 // ---- parent side -------------------------------------------------------------------------------
 
 type tailBuf struct {
-	mu sync.Mutex
-	b  []byte
+	mu  sync.Mutex
+	b   []byte
+	max int
 }
 
 func (t *tailBuf) Write(p []byte) (int, error) {
 	t.mu.Lock()
-	if room := 24000 - len(t.b); room > 0 { // keep the head: the runtime names the fault first
+	if room := t.max - len(t.b); room > 0 { // keep the head: the runtime names the fault first
 		if len(p) < room {
 			room = len(p)
 		}
@@ -176,7 +182,9 @@ type c37ChildT struct {
 
 var c37Children = map[int]*c37ChildT{} // one executor per GOMAXPROCS value
 
-func c37StartChild(p int) (*c37ChildT, error) {
+func c37StartChild(p int) (*c37ChildT, error) { return c37StartChildEnv(p, "GORACE=halt_on_error=1", 24000) }
+
+func c37StartChildEnv(p int, gorace string, logCap int) (*c37ChildT, error) {
 	reqR, reqW, err := os.Pipe()
 	if err != nil {
 		return nil, err
@@ -186,9 +194,12 @@ func c37StartChild(p int) (*c37ChildT, error) {
 		return nil, err
 	}
 	cmd := exec.Command(os.Args[0])
-	cmd.Env = append(os.Environ(), c37ExecEnv+"=1", "GORACE=halt_on_error=1", fmt.Sprintf("GOMAXPROCS=%d", p))
+	cmd.Env = append(os.Environ(), c37ExecEnv+"=1", gorace)
+	if p > 0 {
+		cmd.Env = append(cmd.Env, fmt.Sprintf("GOMAXPROCS=%d", p))
+	}
 	cmd.ExtraFiles = []*os.File{reqR, respW}
-	eb := &tailBuf{}
+	eb := &tailBuf{max: logCap}
 	cmd.Stdout = eb
 	cmd.Stderr = eb
 	if err := cmd.Start(); err != nil {
@@ -220,9 +231,15 @@ func c37StopChild() {
 
 func c37StopOne(p int) {
 	if ch := c37Children[p]; ch != nil {
-		ch.req.Close()
-		ch.cmd.Process.Kill()
-		ch.cmd.Wait()
+		ch.req.Close() // the child exits on end of input (after removing its temp files)
+		done := make(chan struct{})
+		go func() { ch.cmd.Wait(); close(done) }()
+		select {
+		case <-done:
+		case <-time.After(10 * time.Second):
+			ch.cmd.Process.Kill()
+			<-done
+		}
 		delete(c37Children, p)
 	}
 }
@@ -297,4 +314,66 @@ func c37CrashExcerpt(out string) string {
 		lines = lines[:45]
 	}
 	return strings.Join(lines, "\n")
+}
+
+// ---- capacity cases in -race builds ---------------------------------------------------------------
+
+const capChildKey = -1 // slot of the capacity executor in c37Children
+
+var capLogSeen int // how much of the capacity child's output has been scanned for race reports
+
+// c37ExecuteCap runs one capacity case in the capacity executor child (race detector reporting but
+// not halting) and returns its outcome plus the race reports that appeared while it ran.
+func c37ExecuteCap(c c37Case) (capOut, []string) {
+	ch := c37Children[capChildKey]
+	if ch == nil {
+		var err error
+		ch, err = c37StartChildEnv(0, "GORACE=halt_on_error=0", 1<<20)
+		if err != nil {
+			panic("harness: cannot start the capacity executor child: " + err.Error())
+		}
+		c37Children[capChildKey] = ch
+		capLogSeen = 0
+	}
+	b, _ := json.Marshal(c)
+	var out capOut
+	if _, err := ch.req.Write(append(b, '\n')); err != nil {
+		c37StopOne(capChildKey)
+		out.Crash = "capacity executor does not accept requests: " + err.Error()
+		return out, nil
+	}
+	select {
+	case line, ok := <-ch.lines:
+		if !ok {
+			ch.cmd.Wait()
+			out.Crash = c37CrashExcerpt(ch.errb.String())
+			delete(c37Children, capChildKey)
+			ch.req.Close()
+			return out, nil
+		}
+		if err := json.Unmarshal(line, &out); err != nil {
+			panic("harness: cannot decode capacity outcome: " + err.Error())
+		}
+	case <-time.After(300 * time.Second):
+		out.Crash = "capacity executor did not finish the case within 300 s\n" + c37CrashExcerpt(ch.errb.String())
+		c37StopOne(capChildKey)
+		return out, nil
+	}
+	// new race reports
+	log := ch.errb.String()
+	var races []string
+	for {
+		i := strings.Index(log[capLogSeen:], "WARNING: DATA RACE")
+		if i < 0 {
+			break
+		}
+		start := capLogSeen + i
+		end := strings.Index(log[start:], "==================\n")
+		if end < 0 {
+			break // report not complete yet; picked up after the next case
+		}
+		races = append(races, log[start:start+end])
+		capLogSeen = start + end
+	}
+	return out, races
 }
